@@ -310,14 +310,14 @@ def step (f : Nat) (st : St α) : Op α → Option (St α × Obs α)
     | .error e => some (st, .err e)
     | .ok (st', k, it) =>
       match roundCount c with
-      | .error e => some (rebind st' i k it |>.1, .err e)   -- raised when the genexp is created
+      | .error e => some (st', .err e)                 -- raised when the genexp is created (a popped hub use is lost)
       | .ok n => some (rebind st' i k (.limiter n it))
   | .append i s =>
     match target st i with
     | .error e => some (st, .err e)
     | .ok (st', k, it) =>
       match mkSrc st' s with
-      | .error e => some (rebind st' i k it |>.1, .err e)
+      | .error e => some (st', .err e)
       | .ok (st'', it2) => some (rebind st'' i k (.chain it it2))
   | .map i g =>
     match target st i with
